@@ -99,6 +99,24 @@ PROPS = {
             "`&f64 == &f64` has no Verus specification: the float-float arm rests on the K harness c19_float_eq alone",
             "hidden element types in the bounded array harness are drawn from {!, int, any}",
         ]),
+    "C11": dict(
+        probes=["iter", "capture"],
+        explanation="kernel of C11 on the two Rust-level consumers every reducer goes through: collect::exec (`it $]`) and "
+                    "Reduce::exec (`it $ init f`, and through the SimpleSL-source definitions of src/stdlib/operators.rs also "
+                    "$+ $* $& $|) are proved on their verbatim bodies (V, loop invariants injected by anchor): the iterator is "
+                    "pulled in order, each pull exactly once, in the state the previous pull left, until the first pull that "
+                    "is not `(true, x)`; the result is exactly [x1..xn] resp. the left fold f(..f(f(init, x1), x2).., xn); "
+                    "errors of a pull or of f stop the loop. The operators defined in SimpleSL source (@ ? ?T ~ $&& $|| for, "
+                    "the reducers' glue) and partition::exec (pulls through exec_with_args: no state to hang a stream "
+                    "contract on) are covered by the bounded `iter` probes against a Python model of the sequence definitions.",
+        assumptions=COMMON + MACHINE + [
+            "an iterator pull is Function::exec on the current interpreter: its effect (advancing the iterator's cell) is assumed to "
+            "flow through the abstract interpreter state (the same abstraction as every other unit; cells behind Arc are not modelled)",
+            "Function::exec_with_args is a function of (function value, arguments) (fresh interpreter; effects through captured cells not modelled)",
+            "well-typed iterator: every tuple a pull returns has two components (the checker admits only () -> (bool, T))",
+            "impl From<Vec<Variable>> for Variable builds an array of exactly these elements (variable/try_from.rs: not verified)",
+            "@ ? ?T ~ $&& $|| $+ $* $& $| `for` are SimpleSL source / desugaring evaluated by the interpreter: NOT under contract, bounded probes only",
+        ]),
     "C13": dict(
         probes=["cells", "cells_random"],
         explanation="update kernel of C13 proved on the verbatim bodies (V): `mut e` yields a cell holding the value of e "
@@ -136,7 +154,8 @@ ADVISORY_RE = _re.compile(
     r"|ifelse\.recreate\.non_constant_keeps_both_branches|loop\.recreate\.|block\.recreate\.statements_recreated"
     r"|set\.recreate\.|setifelse\.recreate\.|binop\.recreate\.dispatch_|unop\.recreate\.dispatch_"
     r"|\.fold\.constants_equal_exec|with_exec\.constants_folded_by_exec|iws\.recreate\.delegates"
-    r"|arrayrepeat\.fold\.constants_equal_exec|\.fold1\.constant_equals_exec)")
+    r"|arrayrepeat\.fold\.constants_equal_exec|\.fold1\.constant_equals_exec"
+    r"|(anonfn|fndecl)\.recreate\.body_folded)")
 
 
 def is_advisory(oid):
@@ -179,4 +198,6 @@ def probe_family_of(prop, oid):
         return "eq_array" if "array" in oid else "eq"
     if prop == "C13":
         return "cells"
+    if prop == "C11":
+        return "iter"
     return None
